@@ -31,7 +31,7 @@ pub static PROP: Prop = Prop {
         "a source whose radius equals the configured maximum exactly is judged under both readings (ambiguous in the statement)",
     ],
     profiles: Profiles::Strict,
-    cases: |t| t.pick(120_000, 3_000_000),
+    cases: |t| t.pick(300_000, 5_000_000),
     budget_s: |t| t.pick(40, 400),
     run,
     min_nontrivial: 300,
@@ -337,7 +337,8 @@ fn gen_scenario(c: &mut Case) -> (Weights, usize, Vec<Syn>, &'static str) {
                 Kind::Periodic, Kind::AtMax,
             ]);
             let at = p + c.rng.range(-span, span);
-            if let Some(s) = mk_source(c, &w, id, kind, at, span / 2 + 1, c.rng.chance(1, 4)) {
+            let touch = c.rng.chance(1, 4);
+            if let Some(s) = mk_source(c, &w, id, kind, at, span / 2 + 1, touch) {
                 v.push(s);
                 id += 1;
             }
@@ -457,6 +458,14 @@ fn judge_update(
         c.inc("update_not_steered");
         if a.consensus[0] {
             c.inc("consensus_but_no_steer_not_judged");
+            if a.consensus[1] && a.max_overlap_open >= 1 && a.max_overlap_open >= m && 2 * a.max_overlap_open > n {
+                // consensus under every reading (even with open intervals) and still no steering:
+                // not a violation (the statement only says "only when"), but worth knowing about
+                c.inc("robust_consensus_but_no_steer_not_judged");
+                if std::env::var("VERIF_DEBUG_C03").is_ok() {
+                    eprintln!("{}", detail(&a));
+                }
+            }
         }
     }
     if let Some(used) = &obs.used {
